@@ -20,23 +20,30 @@ SHARD = 40
 RULE = ("designs: Module-DSL programs over the C01 expression generator; per design 3-9 signals (width 0..6, signed/unsigned, "
         "random init, some reset_less), roles input / undriven / driven in 1-2 segments (whole, partial with undriven gaps, "
         "two owners in different modules or domains); module tree of depth <= 3 (1-5 modules), drivers placed in any module, "
-        "readers anywhere (ancestors, descendants, siblings); 1-2 clock domains (pos edge; sync reset, reset-less, a few async "
-        "reset); statements: assignments (whole / slice / part-select / concatenation targets) under If/Elif/Else and Switch "
-        "(patterns with don't-cares, default, empty case) nested <= 3; optionally one memory (lib.memory, 1 write port, "
-        "sync/transparent/comb read ports); top-level ports renamed in some designs. stimulus: 6-12 steps, each a data step "
-        "(inputs / sync resets change) or a clock step (one or both clocks rise, or fall). operator stream: one design per "
-        "operator x small shapes, all operand values as stimulus. non-trivial = some observed wire changes during the run; "
-        "distinct by case hash")
+        "readers anywhere (ancestors, descendants, siblings); submodules wrapped by ResetInserter / EnableInserter / "
+        "DomainRenamer; 1-2 clock domains (pos or neg edge; sync reset, reset-less, async reset; declared in the top module "
+        "or in the submodule whose subtree uses them); ResetSignal read as data; statements: assignments (whole / slice / "
+        "slice of slice / part-select / concatenation / array-choice / sign-reinterpreted targets) under If/Elif/Else and "
+        "Switch (patterns with don't-cares, default, empty case) nested <= 3; optionally one memory (lib.memory, 1-2 write "
+        "ports on rows that never coincide, sync/transparent/comb read ports; every row observed); top-level ports as a dict "
+        "(some renamed) or as a plain list. stimulus: 6-20 steps, each a data step (inputs / resets change), a clock step "
+        "(one or both clocks rise, or fall) or, in async-reset domains, a step where clock and reset change in the same "
+        "instant. arst: handwritten async-reset designs (pos/neg edge, reset-less + resettable registers, memory) with the "
+        "reset rising alone, held over edges, rising/falling together with an active edge. op: one design per operator x "
+        "small shapes, all operand values as stimulus. prio: a conditional assignment followed by an unconditional one "
+        "(seeded b04). al: structural tie of emit_value / emit_assignment_list to the Gallina models on the real netlist "
+        "data. cell: the cell type/signedness/widths emitted per operator (operand widths to 12, constant operands) vs the "
+        "Gallina lowering model. non-trivial = some observed wire changes during the run; distinct by case hash")
 MODELLED = ("RTLIL cell/process/flip-flop/memory/hierarchy semantics (coq/Model/RtlilSem.v, written from the Yosys manual as "
             "known: trusted); the lowering code (_ir.emit_rhs operand extension, rtlil.emit_operator/shorten_operand/emit_part) "
             "is modelled for Layer A; emit_assign, emit_drivers, net flow/port inference, naming, sigspec chunking are validated "
             "per design only (Layer B)")
 ASSUMPTIONS = ["RTLIL semantics are the ones written in RtlilSem.v from the Yosys documentation as known (no Yosys offline)",
-               "clock inputs change in steps of their own (no data input changes in the same step); clocks are top-level inputs",
+               "clock inputs change in steps of their own (no data input changes in the same step, except an async reset); "
+               "clocks are top-level inputs and are never read as data (ClockSignal excluded)",
                "Print/Assert/Cover, instances, IO buffers and asynchronous memories with collisions are outside the generated class"]
 TRUSTED_EXTRA = ["strict RTLIL reader harness/rtlil_read.py (text -> Gallina doc; fail-closed)"]
 
-F7_ID = "F7-async-reset-runs-sync-process"
 SHIFT_ID = "C04-part-select-signed-shift-zero-fill"
 
 
@@ -471,11 +478,20 @@ class DGen:
                 if sets:
                     steps.append(["data", sets])
             elif any(clk):
-                steps.append(["clk", [[di, 0] for di in range(len(doms)) if clk[di]]])
+                fall = [di for di in range(len(doms)) if clk[di]]
+                mix = [di for di in fall if doms[di]["rst"] == "async" and r.random() < 0.3]
+                if mix:     # an async reset changes in the same instant as its clock
+                    steps.append(["cr", [[["clk", di], 0] for di in fall] + [[["rst", di], r.randrange(2)] for di in mix]])
+                else:
+                    steps.append(["clk", [[di, 0] for di in fall]])
                 clk = [0] * len(doms)
             else:
                 which = [di for di in range(len(doms)) if r.random() < 0.7] or [0]
-                steps.append(["clk", [[di, 1] for di in which]])
+                mix = [di for di in which if doms[di]["rst"] == "async" and r.random() < 0.3]
+                if mix:
+                    steps.append(["cr", [[["clk", di], 1] for di in which] + [[["rst", di], r.randrange(2)] for di in mix]])
+                else:
+                    steps.append(["clk", [[di, 1] for di in which]])
                 for di in which:
                     clk[di] = 1
         return steps
@@ -548,11 +564,11 @@ def _gen_cases(tier, seed):
     cases = []
     for d in op_designs(thorough):
         cases.append({"k": "op", "d": d})
-    for d in f7_designs():
-        cases.append({"k": "f7", "d": d})
+    for d in arst_designs():
+        cases.append({"k": "arst", "d": d})
     na = 0
-    while na < (6 if not thorough else 60):
-        d = DGen(rng, {"maxsig": 6, "maxw": 4, "maxtotal": 16, "maxsteps": 12, "async": 1.0, "mem": 0.0}).design()
+    while na < (16 if not thorough else 120):
+        d = DGen(rng, {"maxsig": 6, "maxw": 4, "maxtotal": 16, "maxsteps": 14, "async": 1.0, "mem": 0.4}).design()
         if validate(d)[0]:
             cases.append({"k": "rnd", "d": d})
             na += 1
@@ -774,10 +790,13 @@ def simulate(d, skip=()):
                 for tgt, v in sets:
                     sig = B.sigs[tgt[1]] if tgt[0] == "s" else B.cds[tgt[1]].rst
                     ctx.set(sig, v)
-            else:
+            elif kind == "clk":
                 clks = [B.cds[di].clk for di, _ in sets]
                 val = sum(v << k for k, (_, v) in enumerate(sets))
                 ctx.set(Cat(*clks), val)
+            else:       # "cr": clocks and (async) resets change in the same instant
+                tg = [B.cds[t[1]].clk if t[0] == "clk" else B.cds[t[1]].rst for t, _ in sets]
+                ctx.set(Cat(*tg), sum(v << k for k, (_, v) in enumerate(sets)))
             sample(ctx)
     sim.add_testbench(tb)
     sim.run()
@@ -1137,14 +1156,8 @@ def run_impl(c):
     for r in rows:
         out.append(0)
         out.extend(r)
-    base = out
-    alt, f7 = shift_alt(d), has_async(d)
-    if alt:
-        out = out + [-6] + base
-    if f7:
-        out = out + [-7] + base
-    if alt and f7:
-        out = out + [-8] + base
+    if shift_alt(d):
+        out = out + [-6] + out
     return out
 
 
@@ -1192,39 +1205,17 @@ def coq_term(c):
             raise R.RtlilError(f"top module has no input port {pname}")
         inw[key] = (top.windex[wn], len(sig), sig.init)
     init_ins = "[" + "; ".join(f"({wi}%nat, {z(u(init, w))})" for (wi, w, init) in inw.values()) + "]"
-    def sstep(emit, prs, vclk=()):
-        return ("(" + blit(emit) + ", [" + "; ".join(f"({wi}%nat, {z(v)})" for wi, v in prs) + "], [" +
-                "; ".join(f"({wi}%nat, {a0}, {a1})" for wi, a0, a1 in vclk) + "])")
-    steps, steps_f7 = [], []
-    rstv = [0] * len(d["doms"])
+    def sstep(prs):
+        return "(true, [" + "; ".join(f"({wi}%nat, {z(v)})" for wi, v in prs) + "], [])"
+    steps = []
     for kind, sets in d["stim"]:
         if kind == "data":
             prs = [(inw[tuple(tgt)][0], u(v, inw[tuple(tgt)][1])) for tgt, v in sets]
-            steps.append(sstep(True, prs))
-            # F7 run: the testbench sets the inputs one after the other; a rise of an async reset is an event of its
-            # own (the domain's clock pulses virtually), everything set before it is already settled
-            sub, group = [], []
-            for tgt, v in sets:
-                pr = (inw[tuple(tgt)][0], u(v, inw[tuple(tgt)][1]))
-                if tgt[0] == "rst":
-                    rise = d["doms"][tgt[1]]["rst"] == "async" and v == 1 and rstv[tgt[1]] == 0
-                    rstv[tgt[1]] = v
-                    if rise:
-                        if group:
-                            sub.append((group, ()))
-                            group = []
-                        neg = d["doms"][tgt[1]].get("edge", "pos") == "neg"
-                        sub.append(([pr], [(inw[("clk", tgt[1])][0], 1 if neg else 0, 0 if neg else 1)]))
-                        continue
-                group.append(pr)
-            if group or not sub:
-                sub.append((group, ()))
-            for k_, (g_, vc) in enumerate(sub):
-                steps_f7.append(sstep(k_ == len(sub) - 1, g_, vc))
-        else:
+        elif kind == "clk":
             prs = [(inw[("clk", di)][0], v) for di, v in sets]
-            steps.append(sstep(True, prs))
-            steps_f7.append(sstep(True, prs))
+        else:       # "cr": clocks and resets change in the same instant
+            prs = [(inw[(tgt[0], tgt[1])][0], v) for tgt, v in sets]
+        steps.append(sstep(prs))
     # output ports of the top module: checked against the simulator value of the port's signal as extra observations
     extra_obs = []
     for pname, sig in B.outports:
@@ -1234,9 +1225,8 @@ def coq_term(c):
             raise R.RtlilError(f"top module has no output port {pname}")
         extra_obs.append((top.windex[wn], len(sig)))
     port_t = "[" + "; ".join(f"([], {wi}%nat, {ww})" for wi, ww in extra_obs) + "]"
-    f7 = has_async(d)
-    return (f"k_run {blit(shift_alt(d))} {blit(f7)} {blit(bool(d.get('mem')))}\n {doc}\n {obs_t}\n {port_t}\n {init_ins}\n ["
-            + ";\n  ".join(steps) + "]\n [" + (";\n  ".join(steps_f7) if f7 else "") + "]")
+    return (f"k_run {blit(shift_alt(d))} {blit(bool(d.get('mem')))}\n {doc}\n {obs_t}\n {port_t}\n {init_ins}\n ["
+            + ";\n  ".join(steps) + "]")
 
 
 def classify(c):
@@ -1246,8 +1236,8 @@ def classify(c):
     if c["k"] == "op":
         t = d["mods"][0]["blocks"][0][1][0][2]
         return "op:" + (t[1] if t[0] in ("o1", "o2") else t[0])
-    if c["k"] == "f7":
-        return "f7:witness"
+    if c["k"] == "arst":
+        return "arst:handwritten"
     if c["k"] == "al":
         return "al:mods%d" % len(d["mods"])
     nm = len(d["mods"])
@@ -1318,40 +1308,17 @@ def has_async(d):
 
 
 def split_answers(d, l):
-    """the runs inside one answer: base [, -6, other $shift reading] [, -7, F7 behaviour] [, -8, both]"""
-    n = 1 + int(shift_alt(d)) + int(has_async(d)) + int(shift_alt(d) and has_async(d))
-    if n == 1:
+    """the runs inside one answer: base [, -6, the other reading of $shift]"""
+    if not shift_alt(d):
         return {"base": l}
-    if (len(l) - (n - 1)) % n:
+    if len(l) % 2 == 0 or l[len(l) // 2] != -6:
         return None
-    h = (len(l) - (n - 1)) // n
-    names = ["base"] + (["shift"] if shift_alt(d) else []) + (["f7"] if has_async(d) else []) + \
-            (["both"] if shift_alt(d) and has_async(d) else [])
-    seps = {"shift": -6, "f7": -7, "both": -8}
-    out, pos = {}, 0
-    for k_, nm in enumerate(names):
-        if k_:
-            if l[pos] != seps[nm]:
-                return None
-            pos += 1
-        out[nm] = l[pos:pos + h]
-        pos += h
-    return out
-
-
-def _rows(c, l):
-    n = len(c["d"]["stim"]) + 1
-    if not l or len(l) % n:
-        return None
-    k = len(l) // n
-    return [l[i * k:(i + 1) * k] for i in range(n)]
+    return {"base": l[:len(l) // 2], "shift": l[len(l) // 2 + 1:]}
 
 
 def known_finding(c, obs, model):
-    """A disagreement of the first run (RTLIL as published vs simulator) is a listed finding only if the model run
-    under that finding's semantics reproduces the simulator EXACTLY, on every row and column:
-    SHIFT = the other reading of $shift with A_SIGNED; F7 = a rise of an async reset pulses the domain's clock for
-    every clocked element (the simulator runs the whole sync process)."""
+    """A disagreement of the first run (RTLIL as published vs simulator) is the listed finding only if the model run
+    under the OTHER reading of $shift with A_SIGNED reproduces the simulator EXACTLY, on every row and column."""
     if c["k"] in ("al", "cell"):
         return None
     d = c["d"]
@@ -1364,25 +1331,37 @@ def known_finding(c, obs, model):
         return None              # the published semantics agree; something else differs: not a known finding
     if "shift" in sm and sm["shift"] == so["base"]:
         return SHIFT_ID
-    if "f7" in sm and sm["f7"] == so["base"]:
-        return F7_ID
-    if "both" in sm and sm["both"] == so["base"]:
-        return F7_ID             # both findings at once (both ids are listed)
     return None
 
 
-def f7_designs():
-    """the DESIGN.md witness and a variant: async-reset domain, reset-less counter, reset raised between clock edges"""
+def arst_designs():
+    """async-reset domain (pos and neg clock edge): a reset-less and a resettable counter, a register fed by both, and
+    a memory written and read in that domain; the reset rises alone, is held over clock edges, falls, rises together
+    with an active clock edge, and falls together with one"""
     out = []
-    for rl in (True, False):
-        sigs = [{"w": 4, "sg": False, "init": 3, "rl": rl}, {"w": 4, "sg": False, "init": 5, "rl": False}]
+    for edge in ("pos", "neg"):
+        sigs = [{"w": 4, "sg": False, "init": 3, "rl": True}, {"w": 4, "sg": False, "init": 5, "rl": False},
+                {"w": 5, "sg": False, "init": 9, "rl": False}, {"w": 2, "sg": False, "init": 0, "rl": False}]
         stmts = [["as", ["s", 0], ["o2", "+", ["s", 0], ["c", 1, 1, False]]],
-                 ["as", ["s", 1], ["o2", "+", ["s", 1], ["c", 1, 1, False]]]]
-        stim = [["clk", [[0, 1]]], ["clk", [[0, 0]]], ["data", [[["rst", 0], 1]]], ["clk", [[0, 1]]], ["clk", [[0, 0]]],
-                ["data", [[["rst", 0], 0]]], ["clk", [[0, 1]]], ["clk", [[0, 0]]]]
-        out.append({"sigs": sigs, "doms": [{"name": "sync", "rst": "async"}],
-                    "mods": [{"parent": None, "name": "m0", "blocks": [["sync", stmts]]}],
-                    "ins": [], "outs": [0, 1], "rename": False, "mem": None, "stim": stim})
+                 ["as", ["s", 1], ["o2", "+", ["s", 1], ["c", 1, 1, False]]],
+                 ["as", ["s", 2], ["o2", "+", ["s", 0], ["s", 1]]]]
+        mem = {"mod": 0, "w": 4, "depth": 4, "init": [1, 2, 3], "wdom": "sync", "gran": None,
+               "waddr": ["sl", ["s", 0], 0, 2], "wdata": ["s", 1], "wen": ["c", 1, 1, False],
+               "reads": [{"kind": "sync", "dom": "sync", "addr": ["s", 3], "en": ["c", 1, 1, False]},
+                         {"kind": "transp", "dom": "sync", "addr": ["sl", ["s", 0], 0, 2], "en": ["c", 1, 1, False]},
+                         {"kind": "comb", "dom": "sync", "addr": ["s", 3], "en": ["c", 1, 1, False]}]}
+        a, i_ = (1, 0) if edge == "pos" else (0, 1)          # active / inactive clock level
+        clk = lambda v: ["clk", [[0, v]]]
+        rst = lambda v: ["data", [[["rst", 0], v]]]
+        both = lambda c_, r_: ["cr", [[["clk", 0], c_], [["rst", 0], r_]]]
+        stim = [clk(a), clk(i_), ["data", [[["s", 3], 2]]], rst(1), clk(a), clk(i_), clk(a), rst(0), clk(i_), clk(a), clk(i_),
+                both(a, 1), clk(i_), clk(a), both(i_, 0), clk(a), both(i_, 1), both(a, 0), clk(i_), clk(a)]
+        if edge == "neg":
+            stim = [clk(1)] + stim
+        for with_mem in (False, True):
+            out.append({"sigs": sigs, "doms": [{"name": "sync", "rst": "async", "edge": edge, "mod": 0}],
+                        "mods": [{"parent": None, "name": "m0", "blocks": [["sync", stmts]]}],
+                        "ins": [3], "outs": [0, 1, 2], "rename": False, "mem": mem if with_mem else None, "stim": stim})
     return out
 
 
